@@ -44,6 +44,11 @@ def recipe(c: Check):
             if dist.get(k, 0) <= 0:
                 c.broken.append(dict(kind="coverage", name="pool driver never performed %s" % k, detail=str(dist)))
     st2 = c.run_driver("handoff", q(c.tier, 24, 120), shards=1)
+    if st2:
+        d2 = st2.get("distribution", {})
+        for k in ("group-member-v1", "gfate10", "gfate11", "gfate2"):
+            if d2.get(k, 0) <= 0:
+                c.broken.append(dict(kind="coverage", name="handoff driver never reached %s" % k, detail=str(d2)))
     st4 = c.run_driver("sendfault", q(c.tier, 2, 8), shards=1)
     scnt = c.cov.get("coq_counters", {}).get("sendfault", {})
     if st4:
@@ -53,6 +58,15 @@ def recipe(c: Check):
                                    case="see mismatches of C11_holds in the sendfault case shard"))
         if scnt.get("NWFAIL", 0) <= 0:
             c.broken.append(dict(kind="coverage", name="sendfault driver produced no write-fault case", detail=str(scnt)))
+    st5 = c.run_driver("compress", q(c.tier, 3, 10), shards=1)
+    ccnt = c.cov.get("coq_counters", {}).get("compress", {})
+    if st5:
+        if ccnt.get("CMON", 0) != 0:
+            c.failures.append(dict(key="monitor:compress", driver="compress",
+                                   what="C11_holds fails on %d observed compressed-overlap trace(s): a user's payload on another user's work connection" % ccnt.get("CMON"),
+                                   case="see mismatches of C11_holds in the compress case shard"))
+        if st5.get("cases", 0) <= 0:
+            c.broken.append(dict(kind="coverage", name="compress driver produced no case", detail=str(st5)))
     st3 = c.run_driver("visitor", q(c.tier, 40, 400), shards=q(c.tier, 1, 4))
     vcnt = c.cov.get("coq_counters", {}).get("visitor", {})
     if st3:
@@ -72,6 +86,9 @@ def recipe(c: Check):
              "same thread programs and schedule: ReqWorkConn received so far and len(workConnCh) at every checkpoint, StartWorkConn "
              "contents per socket, final fate of every work and user socket; bytes are sent both ways over every bridged pair. "
              "handoff driver: real vhost.Muxer / TCPGroup / TCPMuxGroup with the receiving listener closed between lookup and send. "
+             "handoff driver also: two group members, a user connection pending in the hand-off, member 0 (or both) closed, then the members' "
+             "Accept (ambiguous select: observed outcome = oracle of the model). compress driver: http proxy + tcp proxy with useCompression, "
+             "overlapping users, the scripted client unwraps snappy and records on which work connection each user's payload arrives. "
              "sendfault driver: a session registered over a pipe whose server-side writes start failing while reads stay open, then 104-123 users "
              "(more than sendCh holds) with no work connection delivered: every one must be closed by userConnTimeout. "
              "visitor driver: real InternalListener under random orders of PutConn/Close/Accept (incl. the 128-slot queue overflowing), and a "
